@@ -30,7 +30,7 @@ from ..report import Report
 from .. import symx
 
 ANSATZ = "tangelo/toolboxes/ansatz_generator/ansatz.py"
-TABLE_CLASSES = ("UCCSD", "UpCCGSD", "QCC")       # classes that keep a word -> gate index table
+TABLE_CLASSES = ("UCCSD", "UpCCGSD", "QCC", "UCCGD")       # classes that place angles through a table / list frozen at build time
 
 
 def run(idx: Index, rep: Report, tier: str):
@@ -54,6 +54,8 @@ def run(idx: Index, rep: Report, tier: str):
             check_update_equals_rebuild(idx, rep, c)
     check_vsqs_update_equals_rebuild(idx, rep)
     check_adapt_grow_equals_restart(idx, rep)
+    check_term_order_histories(idx, rep, tier)
+    check_class_update_histories(idx, rep)
 
 
 # ---------------------------------------------------------------------------------------------------
@@ -232,6 +234,10 @@ def check_angles(idx: Index, rep: Report, c: ClassInfo):
                 raise symx.Untranslatable(f"coefficient variable not identified in {txt}")
             ex = symx.to_sympy(e, {cands[0]: coef})
         except symx.Untranslatable as u:
+            if c.name in CLASS_FOLDS:
+                # the class is folded as a whole (check_class_update_histories): its angles are decided there, gate by gate
+                rep.info(rule, m, st, text=label, what="angle written by update vs angle emitted by build", reason=f"not an expression in one coefficient ({u}); decided by the class fold")
+                continue
             raise AnalysisError(f"{c.name}.{m.name}: angle expression not understood: {u}")
         pieces = [(ex, True)] if not isinstance(ex, sp.Piecewise) else list(ex.args)
         ok = all((sp.simplify((val - 2 * coef) / (4 * sp.pi))).is_integer is True for val, _ in pieces)
@@ -266,14 +272,12 @@ def check_support_change(idx: Index, rep: Report, c: ClassInfo):
     upd = idx.find_method(c, "update_var_params")
     rebuild = [n for n in ast.walk(upd.node) if isinstance(n, ast.If) and any("self.build_circuit(" in norm(s) for s in n.body)]
     if rebuild:
-        t = rebuild[0].test
-        two_sided = isinstance(t, ast.Compare) and len(t.ops) == 1 and isinstance(t.ops[0], ast.NotEq) and \
-            all(norm(x).startswith("set(") or norm(x).endswith(".keys()") for x in (t.left, t.comparators[0]))
-        rep.decide(two_sided, rule, upd, rebuild[0], text=f"{c.name}: rebuilds when the set of words changes ({norm(t)[:70]})",
-                   what="the circuit is rebuilt whenever the set of Pauli words differs from the one it was built for - words appearing AND words disappearing "
-                        "(a word that disappears keeps its old angle otherwise)",
-                   reason=f"rebuild condition `{norm(t)[:90]}` is not the inequality of the two key sets: when a word drops out of the operator (a parameter "
-                          f"becomes zero) its gate keeps the previous angle and the updated circuit differs from a rebuilt one")
+        # whether the rebuild condition is strong enough (words appearing, disappearing, coming back) is decided by folding build / update on
+        # vectors with zeros (K8.update-equals-rebuild), not from the spelling of the condition
+        if c.name not in TABLE_CLASSES:
+            raise AnalysisError(f"{c.name}.update_var_params rebuilds on a changed operator but the class is not folded by the update-vs-rebuild check")
+        rep.ok(rule, upd, rebuild[0], text=f"{c.name}: rebuild condition `{norm(rebuild[0].test)[:70]}` (decided by the folded update sequences)",
+               what="the circuit is rebuilt whenever a fresh build would differ in layout", nontrivial=False)
         return
     bld = idx.find_method(c, "build_circuit")
     skipping = "get_exponentiated_qubit_operator_circuit" in full(bld.node)
@@ -331,6 +335,20 @@ class _CircModel:
 
     def __add__(self, o):
         return _CircModel(self._gates + o._gates)
+
+    def add_gate(self, g):
+        import copy
+        g = copy.deepcopy(g)
+        self._gates.append(g)
+        if g.fields.get("is_variational"):
+            self._variational_gates.append(g)
+        self.size = len(self._gates)
+
+    @property
+    def width(self):
+        used = [q for g in self._gates for q in (list(g.fields["target"]) if isinstance(g.fields["target"], list) else [g.fields["target"]]) +
+                (list(g.fields["control"]) if isinstance(g.fields["control"], list) else ([] if g.fields["control"] is None else [g.fields["control"]]))]
+        return max(used) + 1 if used else 0
 
     def signature(self):
         return [(g.fields["name"], tuple(g.fields["target"]) if isinstance(g.fields["target"], list) else g.fields["target"],
@@ -400,7 +418,9 @@ class _AnsatzModel:
     def _block(self, b):
         return self.var_params[b * self.per_block:(b + 1) * self.per_block]
 
-    def _get_qubit_operator(self, current_k):
+    def _get_qubit_operator(self, current_k=None):
+        if current_k is None:
+            return _stand_in_operator(self.var_params, 0)
         return _stand_in_operator(self._block(current_k), current_k)
 
     def _get_singlet_qubit_operator(self):
@@ -427,6 +447,8 @@ def check_update_equals_rebuild(idx: Index, rep: Report, c: ClassInfo):
         [[.3, 0., .2, .5, -.1, .9], [.1, .25, -.3, .4, .5, -.6]],                                # a word set grows
         [[0., 0., 0., 0., 0., 0.], [.1, .2, -.3, .4, .5, -.6]],                                  # from the reference state
         [[.3, -.7, .2, .5, -.1, .9], [0., 0., 0., 0., 0., 0.]],                                  # back to the reference state
+        [[.3, -.7, .2, .5, -.1, .9], [.1, 0., -.3, .4, .5, -.6], [.2, .35, .3, -.4, .6, .7]],      # a word set shrinks, then grows back
+        [[.3, -.7, .2, .5, -.1, .9], [.1, .2, -.3, 0., .5, 0.], [.2, .35, .3, -.4, .6, .7], [.5, .1, 0., .3, .2, .1]],
     ]
     from ..rules import circuitsem as _cs
     ctors = {"Circuit": lambda a, k: _CircModel(*a, **k), "build_qcc_qubit_op": lambda a, k: _stand_in_operator(a[1], 0),
@@ -519,11 +541,24 @@ class _QOpM:
 
 
 class _SizedArr:
+    """stand-in for a one-dimensional numpy array of parameters: size, length, iteration, indexing by position or slice"""
     _sa_model = True
 
     def __init__(self, data):
-        self.data = list(data)
+        self.data = list(data.data) if isinstance(data, _SizedArr) else list(data)
         self.size = len(self.data)
+
+    def __iter__(self):
+        return iter(self.data)
+
+    def __len__(self):
+        return len(self.data)
+
+    def __getitem__(self, k):
+        return _SizedArr(self.data[k]) if isinstance(k, slice) else self.data[k]
+
+    def tolist(self):
+        return list(self.data)
 
 
 def _class_folder(idx: Index, rel: str):
@@ -596,6 +631,181 @@ def check_vsqs_update_equals_rebuild(idx: Index, rep: Report):
                            what="after any sequence of updates the circuit equals, gate by gate, the circuit a fresh object builds from the last vector",
                            reason=f"updated circuit differs from a rebuilt one at {diff}")
     rep.floor("VSQS update-vs-rebuild configurations", n, 12)
+
+
+# ---------------------------------------------------------------------------------------------------
+CLASS_FOLDS = ("pUCCD", "HEA", "RUCC", "VariationalCircuitAnsatz")
+
+
+def check_class_update_histories(idx: Index, rep: Report):
+    """The ansaetze whose circuit is a fixed template (pUCCD, HEA, RUCC, a user circuit) are folded as classes - constructor, set_var_params,
+    build_circuit, update_var_params, with Circuit replaced by a gate-list stand-in -: after build(v0), update(v1), update(v2) the circuit must
+    equal, gate by gate, the one a fresh object builds from v2; a fresh build must equal build-then-update with the same vector; vectors one
+    too short or too long must be refused by both entry points and leave the circuit as it was."""
+    rule = "K8.update-equals-rebuild"
+    from ..rules.circuitsem import module_resolver
+    AG = "tangelo/toolboxes/ansatz_generator/"
+
+    def user_circuit():
+        return _CircModel([make_gate(["H", [0]], {}), make_gate(["RY", [1]], {"parameter": .5, "is_variational": True}), make_gate(["CNOT", [1]], {"control": [0]}),
+                           make_gate(["RZ", [0]], {"parameter": -.3, "is_variational": True}), make_gate(["CRX", [2]], {"control": [1], "parameter": 2., "is_variational": True})])
+    table = [
+        (AG + "puccd.py", "pUCCD", lambda: {"molecule": Rec("Mol", {"spin": 0, "n_active_mos": 4, "n_active_electrons": 4}), "reference_state": "HF"}),
+        (AG + "puccd.py", "pUCCD", lambda: {"molecule": Rec("Mol", {"spin": 0, "n_active_mos": 5, "n_active_electrons": 4}), "reference_state": "zero"}),
+        (AG + "hea.py", "HEA", lambda: {"molecule": None, "mapping": "jw", "up_then_down": False, "n_layers": 2, "rot_type": "euler", "n_qubits": 3, "n_electrons": 2, "reference_state": "HF"}),
+        (AG + "hea.py", "HEA", lambda: {"molecule": None, "mapping": "jw", "up_then_down": False, "n_layers": 1, "rot_type": "real", "n_qubits": 2, "n_electrons": 2, "reference_state": "zero"}),
+        (AG + "rucc.py", "RUCC", lambda: {"n_var_params": 1}),
+        (AG + "rucc.py", "RUCC", lambda: {"n_var_params": 3}),
+        (AG + "variational_circuit.py", "VariationalCircuitAnsatz", lambda: {"abstract_circuit": user_circuit()}),
+    ]
+    n = 0
+    for rel, cname, kw in table:
+        cls = module_resolver(idx, rel)(cname)
+        if cls is None:
+            raise AnalysisError(f"{cname} not resolvable")
+        upd = idx.function(f"{rel}::{cname}.update_var_params")
+        conf = ", ".join(f"{k}={v!r}" for k, v in kw().items() if isinstance(v, (int, str)))
+
+        def make():
+            return _class_folder(idx, rel).instantiate(cls, [], kw())
+
+        def call(obj, meth, *args):
+            return _class_folder(idx, rel).call_funcval(_method(idx, obj, meth, rel), list(args), {})
+
+        def sig(obj):
+            return obj.fields["circuit"].signature()
+
+        def same(x_, y_):
+            return len(x_) == len(y_) and all(x[:3] == y[:3] and x[4] == y[4] and _same_angle(x[3], y[3]) for x, y in zip(x_, y_))
+        try:
+            npar = make().fields["n_var_params"]
+            v0 = [0.1 * (k + 1) * (-1) ** k for k in range(npar)]
+            v1 = [0.] * npar
+            v2 = [7.0 - 0.45 * k for k in range(npar)]
+            v3 = [0.25 if k % 2 else -0.25 for k in range(npar)]
+            for seq in ([v0, v2], [v0, v1, v3], [v1, v2, v0], [v3]):
+                label = f"{cname}({conf}): build then {len(seq) - 1} update(s)" if len(seq) > 1 else f"{cname}({conf}): fresh build vs build followed by an update with the same vector"
+                try:
+                    a = make()
+                    call(a, "build_circuit", list(seq[0]))
+                    for v in (seq[1:] if len(seq) > 1 else seq):
+                        call(a, "update_var_params", list(v))
+                    b = make()
+                    call(b, "build_circuit", list(seq[-1]))
+                except Raised as e:
+                    n += 1
+                    rep.violation(rule, upd, upd.node, text=label, what="updating the parameters gives the circuit a fresh build gives", reason=f"raises {e.exc_type}")
+                    continue
+                n += 1
+                diff = next((f"gate {g}: {x} vs {y}" for g, (x, y) in enumerate(zip(sig(a), sig(b))) if not (x[:3] == y[:3] and _same_angle(x[3], y[3]))), f"{len(sig(a))} vs {len(sig(b))} gates")
+                rep.decide(same(sig(a), sig(b)), rule, upd, upd.node, text=label,
+                           what="after any sequence of updates the circuit equals, gate by gate, the circuit a fresh object builds from the last vector",
+                           reason=f"updated circuit differs from a rebuilt one at {diff}")
+            # wrong lengths
+            for meth in ("update_var_params", "build_circuit"):
+                for bad in (v0[:-1], v0 + [0.3]) if npar > 0 else ():
+                    a = make()
+                    call(a, "build_circuit", list(v0))
+                    before = sig(a)
+                    try:
+                        call(a, meth, list(bad))
+                        refused = False
+                    except Raised:
+                        refused = True
+                    n += 1
+                    rep.decide(refused and same(sig(a), before), "K6.length-validation", idx.function(f"{rel}::{cname}.{meth}") if meth in idx.cls(f"{rel}::{cname}").methods else upd, None,
+                               text=f"{cname}({conf}).{meth} with {len(bad)} values where {npar} are expected",
+                               what="a vector of any other length than the advertised number of parameters is refused and the circuit is left as it was",
+                               reason="accepted" if not refused else "refused, but the circuit was changed before the refusal")
+        except Undecidable as e:
+            raise AnalysisError(f"{cname}({conf}): class not foldable: {e}")
+    rep.floor("template ansatz histories folded", n, 40)
+
+
+# ---------------------------------------------------------------------------------------------------
+def _order_folder(idx: Index, rel: str):
+    """class folder whose fermionic / qubit operators are the order-aware stand-ins (sa/rules/ofmodel.py): Jordan-Wigner, interleaved spin-orbitals"""
+    from ..rules import ofmodel as om
+    fo = _class_folder(idx, rel)
+    fo.ctors.update({"FermionOperator": lambda a, k: om.OrdFermionOp(*a, **k), "hermitian_conjugated": lambda a, k: om.hermitian_conjugated(a[0]),
+                     "fermion_to_qubit_mapping": lambda a, k: om.jordan_wigner(k["fermion_operator"] if "fermion_operator" in k else a[0]),
+                     "get_reference_circuit": lambda a, k: _CircModel([make_gate(["X", [0]], {}), make_gate(["X", [1]], {})]), "print": lambda a, k: None})
+    return fo
+
+
+def check_term_order_histories(idx: Index, rep: Report, tier: str):
+    """The circuit of an operator-based ansatz lists one exponential per Pauli word *in the order the qubit operator lists its terms*, and the
+    exponentials do not commute.  For the classes whose generator is repository code, that order is computed here by folding the class's own
+    generator with order-aware operator stand-ins, for a generic vector and for every vector that repeats one value (with either sign) in a second
+    position.  Where a repeated value changes the order but not the set of words, the class is folded through build(generic), update(special)
+    and compared with a fresh build(special): the update path has to notice."""
+    rule = "K8.term-order"
+    from ..rules import ofmodel as om
+    from ..rules.circuitsem import module_resolver
+    why = om.source_facts_hold()
+    if why:
+        raise AnalysisError(f"order-aware operator stand-ins do not mirror the installed openfermion: {why}")
+    table = [
+        ("tangelo/toolboxes/ansatz_generator/uccgd.py", "UCCGD", lambda: {"molecule": Rec("Mol", {"n_active_sos": 6, "n_active_electrons": 2, "active_spin": 0}), "mapping": "JW",
+                                                                        "up_then_down": False, "reference_state": "HF"}, lambda a: []),
+        ("tangelo/toolboxes/ansatz_generator/upccgsd.py", "UpCCGSD", lambda: {"molecule": Rec("Mol", {"n_active_sos": 6, "n_active_electrons": 2, "active_spin": 0, "spin": 0}), "mapping": "JW",
+                                                                            "up_then_down": False, "k": 1, "reference_state": "HF"}, lambda a: [0]),
+    ]
+    for rel, cname, kw, gen_args in table:
+        cls = module_resolver(idx, rel)(cname)
+        if cls is None:
+            raise AnalysisError(f"{cname} not resolvable")
+        upd = idx.function(f"{rel}::{cname}.update_var_params")
+
+        def make():
+            return _order_folder(idx, rel).instantiate(cls, [], kw())
+
+        def order(a, vec):
+            a.fields["var_params"] = _SizedArr(vec)
+            q = _order_folder(idx, rel).call_funcval(_method(idx, a, "_get_qubit_operator", rel), gen_args(a), {})
+            return [w for w, _ in q.terms.items()]
+        try:
+            a0 = make()
+            n = a0.fields["n_var_params"]
+            base = [0.1 + 0.037 * k * (-1) ** k + 0.011 * k * k for k in range(n)]
+            o0 = order(a0, base)
+            pairs = [(i, j, sg) for i in range(n) for j in range(n) if i != j for sg in (-1, 1)]
+            if tier == "quick":
+                pairs = [(i, j, sg) for (i, j, sg) in pairs if i < j]
+            witnesses = []
+            for i, j, sg in pairs:
+                v = list(base)
+                v[j] = sg * v[i]
+                o1 = order(a0, v)
+                if o1 != o0 and set(o1) == set(o0):
+                    witnesses.append((i, j, sg, v))
+        except Undecidable as e:
+            raise AnalysisError(f"{cname}: generator not foldable with the order-aware stand-ins: {e}")
+        except Raised as e:
+            raise AnalysisError(f"{cname}: generator raises {e.exc_type} on the stand-ins")
+        rep.ok(rule, upd, upd.node, text=f"{cname}: term order of the generator for {len(pairs)} vectors with a repeated value ({n} parameters, {len(o0)} words): "
+                                          f"{len(witnesses)} change the order without changing the set",
+               what="where the order of the operator's terms depends on the parameter values is found by folding the generator", nontrivial=False)
+        for i, j, sg, v in witnesses[:2]:
+            label = f"{cname}: build(generic) then update(theta[{j}] = {'-' if sg < 0 else ''}theta[{i}]) vs a fresh build"
+            try:
+                a = make()
+                _order_folder(idx, rel).call_funcval(_method(idx, a, "build_circuit", rel), [list(base)], {})
+                _order_folder(idx, rel).call_funcval(_method(idx, a, "update_var_params", rel), [list(v)], {})
+                b = make()
+                _order_folder(idx, rel).call_funcval(_method(idx, b, "build_circuit", rel), [list(v)], {})
+            except Undecidable as e:
+                raise AnalysisError(f"{label}: not foldable: {e}")
+            except Raised as e:
+                rep.violation(rule, upd, upd.node, text=label, what="updating the parameters gives the circuit a fresh build gives", reason=f"raises {e.exc_type}")
+                continue
+            sa_, sb_ = a.fields["circuit"].signature(), b.fields["circuit"].signature()
+            same = len(sa_) == len(sb_) and all(x[:3] == y[:3] and x[4] == y[4] and _same_angle(x[3], y[3]) for x, y in zip(sa_, sb_))
+            diff = next((f"gate {g}: {x} vs {y}" for g, (x, y) in enumerate(zip(sa_, sb_)) if not (x[:3] == y[:3] and _same_angle(x[3], y[3]))), f"{len(sa_)} vs {len(sb_)} gates")
+            rep.decide(same, rule, upd, upd.node, text=label,
+                       what="when a repeated parameter value changes the order in which the operator lists its Pauli words (same set), the updated circuit still equals, "
+                            "gate by gate, the circuit a fresh object builds (the exponentials do not commute)",
+                       reason=f"updated circuit keeps the old word order; differs from a rebuilt one at {diff}")
 
 
 def check_adapt_grow_equals_restart(idx: Index, rep: Report):
